@@ -412,7 +412,7 @@ Section Stream.
     - subst G'. constructor; auto.
       + rewrite E2. exact Hout.
       + destruct Hscan as [ann [comp [S1 [S2 [S3 [S4 S5]]]]]]. exists ann, comp. rewrite E2.
-        repeat split; auto. intros x Hx. apply S5. apply K3. exact Hx.
+        repeat split; auto; try (intros x Hx; apply S5; apply K3; exact Hx).
       + rewrite E2. exact Hlast.
     - assert (Hg : In g (map dd_id descs)). { apply Hok. apply owed_all_ids. exact G1. }
       destruct (do_render_facts _ _ _ _ Hg G3) as [f [F1 [F2 [F3 [F4 [F5 [F6 [F7 F8]]]]]]]].
@@ -509,7 +509,7 @@ Section Stream.
                      | _, _ => false
                      end) cs l = true ->
                   flat_map tops l = cs /\ Forall (twf descs) l /\ Forall (fun t => exists g, top_id t = Some g) l).
-        { clear - IH. induction cs0 as [| c cs IHc]; intros l Hg; destruct l as [| t l]; try discriminate.
+        { clear - IH. intros cs1; induction cs1 as [| c cs IHc]; intros l Hg; destruct l as [| t l]; try discriminate.
           - repeat split; constructor.
           - apply andb_true_iff in Hg. destruct Hg as [Hg Hr]. apply andb_true_iff in Hg. destruct Hg as [Ht Hc].
             destruct (top_id t) as [c' |] eqn:Htop; [| discriminate]. apply N.eqb_eq in Ht. subst c'.
@@ -517,7 +517,7 @@ Section Stream.
             + simpl. rewrite A. rewrite (tops_single_seq t c Htop); [reflexivity |]. intros l0 He. subst. discriminate.
             + constructor; [apply IH; exact Hc | exact B].
             + constructor; [eexists; exact Htop | exact C]. }
-        destruct (Hgo _ _ H) as [A [B C]].
+        destruct (Hgo (c :: c2 :: cs) l H) as [A [B C]].
         constructor.
         * simpl. rewrite app_nil_r. rewrite Hc. exact A.
         * constructor; [constructor; assumption | constructor].
@@ -536,10 +536,8 @@ Section Stream.
       induction rest as [| c r IH]; simpl in *; [contradiction |].
       apply in_app_or in Hx. destruct Hx as [Hx | Hx].
       + apply (Forall_inv Hr); [apply (Forall_inv Hf) | | exact Hx]. intros y Hy. apply Hrest. apply in_or_app. left. exact Hy.
-      + apply IH; auto.
-        * apply (Forall_inv_tail Hr).
-        * apply (Forall_inv_tail Hf).
-        * intros y Hy. apply Hrest. apply in_or_app. right. exact Hy.
+      + apply IH; auto; try (apply (Forall_inv_tail Hr)); try (apply (Forall_inv_tail Hf));
+          try (intros y Hy; apply Hrest; apply in_or_app; right; exact Hy).
     - inversion Hw as [| | l' Hf Htop]; subst. simpl in *.
       clear Hw Htop. induction l as [| c r IH]; simpl in *; [apply incl_nil_l |].
       apply incl_app.
@@ -573,7 +571,7 @@ Section Stream.
                      | _, _ => false
                      end) cs l = true ->
                   flat_map tops l = cs /\ Forall (twf descs) l /\ Forall (fun t => exists g, top_id t = Some g) l).
-        { clear. induction cs0 as [| c cs IHc]; intros l Hg; destruct l as [| t l]; try discriminate.
+        { clear. intros cs1; induction cs1 as [| c cs IHc]; intros l Hg; destruct l as [| t l]; try discriminate.
           - repeat split; constructor.
           - apply andb_true_iff in Hg. destruct Hg as [Hg Hr]. apply andb_true_iff in Hg. destruct Hg as [Ht Hc].
             destruct (top_id t) as [c' |] eqn:Htop; [| discriminate]. apply N.eqb_eq in Ht. subst c'.
@@ -581,7 +579,7 @@ Section Stream.
             + simpl. rewrite A. rewrite (tops_single_seq t c Htop); [reflexivity |]. intros l0 He. subst. discriminate.
             + constructor; [eapply chain_ok_twf; exact Hc | exact B].
             + constructor; [eexists; exact Htop | exact C]. }
-        destruct (Hgo _ _ H) as [A [B C]]. split; [constructor; assumption | exact A].
+        destruct (Hgo (c :: c2 :: cs) l H) as [A [B C]]. split; [constructor; assumption | exact A].
   Qed.
 
   Lemma group_ids_tree_ids : forall t, group_ids_nodup (Some t) = true -> NoDup (tree_ids t).
@@ -593,9 +591,7 @@ Section Stream.
                               | TSeq l | TPar l => (fix go (l : list dtree) : list N :=
                                                       match l with [] => [] | c :: r => ids c ++ go r end) l
                               end) t = tree_ids t).
-    { clear. induction t0 using dtree_ind'; simpl; auto.
-      - induction l as [| c r IH]; simpl; auto. rewrite (Forall_inv H). f_equal. apply IH. apply (Forall_inv_tail H).
-      - induction l as [| c r IH]; simpl; auto. rewrite (Forall_inv H). f_equal. apply IH. apply (Forall_inv_tail H). }
+    { clear. intros t1. induction t1 using dtree_ind'; simpl; auto. }
     rewrite He in H. exact H.
   Qed.
 
@@ -644,37 +640,32 @@ Section Stream.
     destruct Hk as [K1 [K2 [K3 [K4 K5]]]]. subst G.
     assert (Hlen : length (owed k) = length live).
     { apply Permutation_length in K4. unfold L in K4. rewrite map_length in K4. exact K4. }
-    constructor; simpl; auto.
-    - rewrite Hlen. reflexivity.
+    constructor; simpl; auto; try (rewrite Hlen; reflexivity).
     - exists f, []. auto.
     - exists L, []. unfold frame_checks. rewrite R1, R2, R3. simpl.
       assert (Hn : nodup_N (map dd_id live) = true). { apply nodup_N_NoDup. exact HL2. }
       fold L. fold L in Hn.
-      assert (Hf : forallb (fun p : N => negb (mem_N p [])) L = true). { apply forallb_forall. intros; reflexivity. }
+      assert (Hf : forallb (fun _ : N => true) L = true). { apply forallb_forall. intros; reflexivity. }
       rewrite Hf, Hn. simpl.
       split; [reflexivity |]. split; [apply Permutation_sym; exact K4 |]. split; [exact HL2 |].
-      split; [intros x Hx; left; apply Hpar0; exact Hx | intros x _ []].
+      split; [intros x Hx; left; apply Hpar0; exact Hx | intros x _ Hfalse; exact Hfalse].
     - rewrite R4. f_equal. rewrite Hlen. unfold nonempty. destruct live; reflexivity.
   Qed.
 End Stream.
 
 (* ---- from the boolean well-formedness check ---- *)
+Lemma sorted_N_head : forall r x, sorted_N (x :: r) = true -> forall y, In y r -> x < y.
+Proof.
+  induction r as [| z r IH]; intros x Hs y Hy; [contradiction |].
+  simpl in Hs. apply andb_true_iff in Hs. destruct Hs as [Hlt Hs]. apply N.ltb_lt in Hlt.
+  destruct Hy as [<- | Hy]; [exact Hlt |]. pose proof (IH z Hs y Hy). lia.
+Qed.
 Lemma sorted_N_NoDup : forall l, sorted_N l = true -> NoDup l.
 Proof.
-  assert (H : forall l, sorted_N l = true -> NoDup l /\ forall x y r, l = x :: r -> In y r -> x < y).
-  { induction l as [| x r IH]; intros Hs.
-    - split; [constructor | intros; discriminate].
-    - simpl in Hs. destruct r as [| y r'].
-      + split; [constructor; [intros [] | constructor] | intros ? ? ? He []]. inversion He; subst.
-        intros. inversion He; subst. contradiction.
-      + apply andb_true_iff in Hs. destruct Hs as [Hlt Hs]. apply N.ltb_lt in Hlt.
-        destruct (IH Hs) as [Hnd Hall].
-        assert (Hx : forall z, In z (y :: r') -> x < z).
-        { intros z [<- | Hz]; [exact Hlt |]. pose proof (Hall y z r' eq_refl Hz). lia. }
-        split.
-        * constructor; [| exact Hnd]. intros Hin. pose proof (Hx x Hin). lia.
-        * intros x0 y0 r0 He Hy. inversion He; subst. apply Hx. exact Hy. }
-  intros l Hs. apply (H l Hs).
+  induction l as [| x r IH]; intros Hs; [constructor |].
+  constructor.
+  - intros Hin. pose proof (sorted_N_head r x Hs x Hin). lia.
+  - apply IH. destruct r as [| z r']; [reflexivity |]. simpl in Hs. apply andb_true_iff in Hs. tauto.
 Qed.
 
 Theorem stream_wellformed_b : forall descs root tree data tr frames,
